@@ -29,9 +29,11 @@
 //	contents of its storage); a difference is reported as ARGUMENT-MODIFIED.
 //	SSALL amax bmax smin smax nmax      sliceSize over the whole box
 //	MH1ALL amax bmax smin smax nmax     makeHyperslab, one axis, over the box (+ nil)
+//	SSLIST k (a b s n)*k                sliceSize on listed arguments (any int64, extremes included)
 //	MH k <SEL>*k r d1..dr               makeHyperslab, one call
 //
 // -conc N runs the concurrency stress (N goroutines, see conc.go).
+// -concload N [-rounds R -seed S -delay D] runs the concurrent-results stream (concload.go).
 package main
 
 import (
@@ -47,6 +49,7 @@ import (
 	"sort"
 	"strconv"
 	"strings"
+	"time"
 
 	owio "github.com/flowmatters/openwater-core/io"
 	"gonum.org/v1/hdf5"
@@ -622,7 +625,13 @@ func hyperStr(sl [][]int, dims []int) (out string) {
 func main() {
 	conc := flag.Int("conc", 0, "run the concurrency stress with this many goroutines")
 	rounds := flag.Int("rounds", 40, "operations per goroutine in the concurrency stress")
+	concload := flag.Int("concload", 0, "run the concurrent-results stream (loads with different selections at the same time; loads + writers) with this many goroutines")
+	seed := flag.Int64("seed", 0, "seed of the concurrent-results stream")
+	delay := flag.Duration("delay", 200*time.Microsecond, "duration forced on every library call in the concurrent-results stream")
 	flag.Parse()
+	if *concload > 0 {
+		os.Exit(runConcLoad(*concload, *rounds, *seed, *delay))
+	}
 	if *conc > 0 {
 		os.Exit(runConc(*conc, *rounds))
 	}
@@ -666,6 +675,13 @@ func main() {
 					for n := 0; n <= nmax; n++ {
 						r = append(r, hyperStr([][]int{nil}, []int{n}))
 					}
+				}
+				fmt.Fprintln(out, strings.Join(r, " "))
+			case "SSLIST":
+				var r []string
+				for n := k.int(); n > 0; n-- {
+					sl := k.ints(3)
+					r = append(r, sliceSizeStr(sl, k.int()))
 				}
 				fmt.Fprintln(out, strings.Join(r, " "))
 			case "MH":
